@@ -467,11 +467,12 @@ CHECKS["C06"] = {
 
 CHECKS["C16"] = {
     "level": "other",
-    "explanation": "Two writers on disjoint accounts of one ledger run as logical threads on the store model in concurrent mode (sequence values drawn at statement time, never rolled back; commit order recorded by the model), every interleaving, with HASH_LOGS=SYNC and DISABLED. Decided: transaction ids and log ids are unique; with HASH_LOGS=SYNC (advisory lock held from InsertLog to commit) log ids increase in commit order. Transaction ids are drawn by CommitTransaction BEFORE the log lock is taken and nothing serialises them with the commit: the check finds the interleaving in which the later commit carries the smaller transaction id (recorded finding). The unique (ledger, id) keys of transactions and logs are resolved from the migrations by the C14 machinery.",
-    "bounds": {"quick": "2 concurrent writers on one ledger, all interleavings", "thorough": "same"},
-    "outside": "two ledgers sharing a bucket (per-ledger sequence names are visible in the captured SQL: \"transaction_id_<id>\", \"log_id_<id>\", but not race-checked); rollbacks between the writers; PostgreSQL's sequence implementation",
+    "explanation": "Two writers on disjoint accounts of one ledger run as logical threads on the store model in concurrent mode (sequence values drawn at statement time, never rolled back; commit order recorded by the model), every interleaving, with HASH_LOGS=SYNC and DISABLED. Decided: transaction ids and log ids are unique; with HASH_LOGS=SYNC (advisory lock held from InsertLog to commit) log ids increase in commit order. Transaction ids are drawn by CommitTransaction BEFORE the log lock is taken and nothing serialises them with the commit: the check finds the interleaving in which the later commit carries the smaller transaction id (recorded finding). SQL half (pychecks/c16_ids): the statement list of one write (CommitTransaction then InsertLog) is captured from the real store for two ledgers of a bucket and for HASH_LOGS=SYNC / DISABLED; W writers run it under a symbolic schedule (integer instants per statement and per end of transaction, commit or rollback symbolic, writers assigned symbolically to the two ledgers) with the documented semantics of nextval and of the advisory-lock function the statement actually names (blocking / try / session); z3 decides uniqueness, 'ids increase in commit order' for log and transaction ids, and that lock keys and sequence names differ between ledgers. Without HASH_LOGS=SYNC nothing orders log ids with commits (recorded finding). The unique (ledger, id) keys of transactions and logs are resolved from the migrations by the C14 machinery.",
+    "bounds": {"quick": "2 concurrent writers, all interleavings (Go model: one ledger; SQL schedule: two ledgers, commit/rollback symbolic)", "thorough": "SQL schedule with 3 writers"},
+    "outside": "PostgreSQL's sequence and advisory-lock implementation (semantics trusted as stated); row locks between writers touching the same accounts are not part of the SQL schedule model (the Go model has them)",
     "assumptions": COMMON_ASSUME + CONC_ASSUME,
-    "units": [conc_unit("^Harness_CONC_ids_", "^(C16:|no-panic)")],
+    "units": [conc_unit("^Harness_CONC_ids_", "^(C16:|no-panic)"),
+              py_unit("c16_ids", "C16_ids", [])],
 }
 
 CHECKS["C09"] = {
